@@ -194,13 +194,15 @@ theorem remove_guard :
     (∀ hasFilename, removeableOf flags "overwrite" hasFilename = some (entitled "overwrite" hasFilename)) := by
   decide
 
-/-- **Readers never alter a file**: importing opens read-only, and the reader's `close()`
+/-- **Readers never alter a file, and keep no state of their own**: every
+    `import_process_tensor` call starts by opening the file (so a second import in the same
+    process sees — and warns about — exactly what the first did); importing opens read-only, and the reader's `close()`
     does not attempt to write (so it neither raises nor clears the flag of an interrupted
     file). -/
 theorem reader_never_alters :
-    flags.readMode = "r" ∧ (∀ d : Disk, h5openDisk d .r = d) ∧
+    flags.importOpensFirst = true ∧ flags.readMode = "r" ∧ (∀ d : Disk, h5openDisk d .r = d) ∧
     (∀ (c : H5) (b : Bool), c.writing = some b → readerCloseOk flags c = true) := by
-  refine ⟨rfl, read_leaves_disk, ?_⟩
+  refine ⟨rfl, rfl, read_leaves_disk, ?_⟩
   intro c b hb
   unfold readerCloseOk
   rw [hb]
